@@ -87,6 +87,10 @@ public:
   typedef std::set<CPPFile> ParsedFiles;
   ParsedFiles _parsed_files;
 
+  // How many times each file has been opened so far, to catch a file that
+  // keeps including itself.
+  std::map<CPPFile, int> _include_counts;
+
   typedef std::set<std::string> Includes;
   Includes _quote_includes;
   Includes _angle_includes;
